@@ -7,6 +7,7 @@ import (
 	"time"
 
 	"github.com/uhppoted/uhppote-core/types"
+	"github.com/uhppoted/uhppote-core/uhppote"
 
 	"verif/harness/adapter"
 	rm "verif/harness/refmodel"
@@ -257,7 +258,23 @@ func c07(c *Ctx) {
 		}
 		return ap.Port() != 0
 	}
+	// the rule does not depend on what the client itself listens on: clients without a listen address, with an explicit one, and
+	// with the wildcard address take turns
+	type lclient struct {
+		u uhppote.IUHPPOTE
+		d *adapter.MemDriver
+	}
+	lclients := []lclient{{u, d}}
+	for _, l := range []string{"192.168.1.100:60001", "0.0.0.0:60001", "127.0.0.1:60001"} {
+		ul, dl := mkMemClient(ClientCfg{Bind: "0.0.0.0:0", Broadcast: "192.168.1.255:60000", Listen: l})
+		lclients = append(lclients, lclient{ul, dl})
+	}
 	tryListener := func(ap netip.AddrPort, interval uint8) {
+		lc := lclients[int(caseNo)%len(lclients)]
+		u := lc.u
+		saved := d
+		d = lc.d
+		defer func() { d = saved }()
 		serial := r.Serial()
 		accept := refListener(ap)
 		var want []byte
